@@ -77,7 +77,17 @@ class Gen:
                 den = self.var("%")
             return ("bin", "/", self.expr(t, depth + 1), den)
         if x < 0.74:
-            return ("bin", "MOD", self.expr("%", depth + 1), ("lit", "%", r.choice([2, 3, 5, 7, -3])) if r.random() < 0.8 else self.expr("%", depth + 1))
+            left = self.expr("%", depth + 1)
+            right = ("lit", "%", r.choice([2, 3, 5, 7, -3])) if r.random() < 0.8 else self.expr("%", depth + 1)
+            if t != "%" and r.random() < 0.3:
+                # operands of type LONG that hold small values
+                v = self.var("&")
+                small = ("bin", "+", ("bin", "-", v, v), ("lit", "%", r.choice([1, 6, 9, -4, 100])))
+                if r.random() < 0.5:
+                    left = small
+                else:
+                    right = small
+            return ("bin", "MOD", left, right)
         if x < 0.80:
             return ("un", "-", self.expr(t, depth + 1))
         if x < 0.86:
@@ -91,7 +101,14 @@ class Gen:
         r = self.rng
         x = r.random()
         if depth >= 3 or x < 0.6:
-            if r.random() < 0.2:
+            y = r.random()
+            if y < 0.08:
+                # a bare number as the condition: true iff non-zero, whatever its type (0.25 is true)
+                t = self.num_type()
+                if t == "!" and self.allow_fractions and r.random() < 0.5:
+                    return ("lit", "!", Fraction(r.choice([1, -1, 3, 1]), r.choice([4, 8, 2])))
+                return self.expr(t, 2)
+            if y < 0.25:
                 return ("bin", r.choice(REL), self.expr("$", 2), self.expr("$", 2))
             t = self.num_type()
             return ("bin", r.choice(REL), self.expr(t, depth + 1), self.expr(t, depth + 1))
@@ -250,7 +267,11 @@ class Gen:
                 step = ("var", "ST%d%%" % my_id)
                 st_value = step_v
                 y = r.random()
-                if y < 0.25:
+                if getattr(self, "step_fn", None) and r.random() < 0.35:
+                    # the step (and sometimes a bound) comes out of a FUNCTION that runs a FOR loop of its own
+                    step = ("call", self.step_fn, [("var", "ST%d%%" % my_id)])
+                    self.step_fn_used = True
+                elif y < 0.25:
                     step = ("un", "-", step)
                     st_value = -step_v
                 elif y < 0.4:
@@ -560,6 +581,8 @@ class GenCalls(Gen):
             head.append({"k": "dim", "text": "DIM %s(%d TO %d)" % (nm, lb, ub),
                          "decls": [{"name": nm, "type": at, "dims": [(("lit", "%", lb), ("lit", "%", ub))]}]})
         # procedure bodies: a procedure may call the ones defined after it (no cycles)
+        self.step_fn = "StepOf%"
+        self.step_fn_used = False
         for i, p in enumerate(self.procs):
             self.proc_body(p, self.procs[i + 1:])
         self.scope = None
@@ -581,6 +604,10 @@ class GenCalls(Gen):
         procs = []
         for p in self.procs:
             procs.append({"k": p["k"], "name": p["name"], "params": p["params"], "static": p["static"], "rtype": p["rtype"], "body": p["body"]})
+        if self.step_fn_used:
+            body = [{"k": "for", "var": "Q9%", "lo": ("lit", "%", 1), "hi": ("lit", "%", 12), "step": ("lit", "%", 5), "body": [], "next_var": False},
+                    {"k": "assign", "lhs": ("var", "StepOf%"), "rhs": ("var", "N9%")}]
+            procs.append({"k": "function", "name": "StepOf%", "params": [("N9%", "%")], "static": False, "rtype": "%", "body": body})
         counter = [0]
         number_statements(main, counter)
         for p in procs:
